@@ -235,10 +235,45 @@ def exec_impl(driver, ops_text, extra_env=None, timeout=600):
             env.update(extra_env)
         p = subprocess.run([driver, "-mode", "exec"], input=ops_text, capture_output=True, text=True, env=env, timeout=timeout)
         oracle = open(oname).read().splitlines()
+        oracle += race_reports(p.stderr)
         crashed = p.returncode not in (0, 3)
         return p.stdout.splitlines(), oracle, (p.stderr[-2000:] if crashed else "")
     finally:
         os.remove(oname)
+
+
+def race_reports(stderr):
+    """turns the Go race detector's reports into oracle failures of the case they occurred in
+    (the driver prints @@CASE markers when VERIF_CASE_MARK=1)"""
+    if "DATA RACE" not in stderr:
+        return []
+    out, cur = [], "?"
+    lines = stderr.splitlines()
+    i = 0
+    while i < len(lines):
+        l = lines[i]
+        if l.startswith("@@CASE "):
+            cur = l.split()[1]
+        elif "WARNING: DATA RACE" in l:
+            j = i + 1
+            parts = []
+            while j < len(lines) and not lines[j].startswith("=================="):
+                t = lines[j].strip()
+                m = re.match(r"^(Read|Write|Previous read|Previous write) at", t)
+                if m:
+                    frames = []
+                    k = j + 1
+                    while k < len(lines) and lines[k].startswith("  ") and len(frames) < 3:
+                        f = lines[k].strip()
+                        if not f.startswith("/") and not f.startswith("<autogenerated>"):
+                            frames.append(re.sub(r"\(\)$", "", f).replace("github.com/panjf2000/gnet/v2", "gnet"))
+                        k += 1
+                    parts.append("%s in %s" % (m.group(1).lower(), " <- ".join(frames)))
+                j += 1
+            out.append("ORACLE-FAIL case=%s op=1 C05: data race: %s" % (cur, " || ".join(parts)))
+            i = j
+        i += 1
+    return out
 
 
 def exec_model(component, ops_text, timeout=1200):
